@@ -74,6 +74,7 @@ PLib == <<
   PKind("err-reader",  "ParseReadErr", "echo foo; echo \"bar", 12, {"mode", "open", "err", "token", "reader"}), \* reader fails after k bytes
   PKind("seq-abandoned", "StmtsSeq", "a; b; c\nd\n", 1, {"open", "token", "reader"}),
   PKind("seq-abandoned-big", "StmtsSeq", "BIG", 2, {"open", "token", "reader"}),
+  PKind("seq-abandoned-heredoc", "StmtsSeq", "cat <<EOF; b", 1, {"open", "heredocs", "token", "reader"}),   \* body never given
   PKind("seq-error",   "StmtsSeq", "a; b; (c", 0, {"mode", "open", "err", "token", "reader"}),
   PKind("words-abandoned", "WordsSeq", "a \"b c\" d\n e", 1, {"token", "reader"}),
   PKind("words-error", "WordsSeq", "a b; c", 0, {"err", "token", "reader"}),
